@@ -87,7 +87,7 @@ impl<B: Flavor> Cobs<B> {
              obls=["C06.V.flavor.finalize"]),
         dict(kind="raw", name="<cobs-impl-close>", text="}\n"),
     ],
-    trailer="""
+    trailer_parts=[(["default0", "push", "finalize", "try_new", "try_push"], """
 // Whole-message theorem on the real flavour: pushing msg byte by byte into a fresh Cobs<B> and finalizing yields cobs(msg) ++ [0],
 // for every inner storage B satisfying the storage contract and every message (when no push fails).
 fn encode_all<B: Flavor>(bee: B, msg: &[u8]) -> (r: Result<B::Output>)
@@ -117,6 +117,6 @@ fn encode_all<B: Flavor>(bee: B, msg: &[u8]) -> (r: Result<B::Output>)
     }
     c.finalize()
 }
-""",
+""")],
     trailer_obls=["C06.V.flavor.whole_message"],
 )
